@@ -490,3 +490,50 @@ def run_compiled(cm, K, vars_, assumptions=(), inputs_override=None, max_paths=6
                 r.mems[m.name] = (p.result['state']['mem'][vn], cm.model.mems[vn])
         out.append(r)
     return out
+
+
+def validate_compiled_model(cm, K, vars_, results, salt=0):
+    """translator validation (not a property obligation): the z3 meaning vf/ctrans.py gives to the generated C, evaluated on
+    one concrete input sequence, must equal what the real gcc-built library computes for that sequence. Runs the REAL
+    CompiledSimulation held by `cm` (its static state is still the initial one: the symbolic runs never entered the library).
+    returns (checked values, [mismatch descriptions]); a mismatch means ctrans misreads the text -> harness error"""
+    block = cm.block
+    inputs = sorted(block.wirevector_subset(pyrtl.Input), key=lambda w: w.name)
+    pats = [lambda m, t: m, lambda m, t: 0xAAAAAAAAAAAAAAAAAAAAAAAAAAAAAAAAAAAAAAAAAAA & m,
+            lambda m, t: (0x5DEECE66D * (t + 3) + 0xB) & m, lambda m, t: 1 & m, lambda m, t: 0]
+    vec = {}
+    subs = []
+    for i, w in enumerate(inputs):
+        for t in range(K):
+            val = pats[(salt + i + t) % len(pats)](w.bitmask, t)
+            vec[(w.name, t)] = val
+            subs.append((vars_.inp(w.name, t, w.bitwidth), z3.BitVecVal(val, w.bitwidth)))
+    sim = cm.sim
+    sim.tracer.trace.__init__(sim.tracer.wires_to_track)
+    try:
+        for t in range(K):
+            sim.step({w.name: vec[(w.name, t)] for w in inputs})
+    except Exception as e:     # an input the real run() refuses: nothing to compare
+        return 0, []
+    real = {w.name: list(sim.tracer.trace[w.name]) for w in sim.tracer.wires_to_track}
+    n, bad = 0, []
+    taken = 0
+    for r in results:
+        if r.exc is not None:
+            continue
+        pc = z3.simplify(z3.substitute(z3.And(*r.pc), *subs)) if r.pc else z3.BoolVal(True)
+        if not z3.is_true(pc):
+            continue
+        taken += 1
+        for name, vals in r.trace.items():
+            wv = block.wirevector_by_name[name]
+            for t in range(min(K, len(vals))):
+                term = z3.simplify(z3.substitute(to_bv(vals[t], wv.bitwidth + 1), *subs))
+                if not z3.is_bv_value(term):
+                    continue      # depends on an uninterpreted function (abstracted product): not evaluable
+                n += 1
+                if term.as_long() != real[name][t]:
+                    bad.append('%s@%d: ctrans model %d, real library %d' % (name, t, term.as_long(), real[name][t]))
+    if taken != 1 and not bad and n == 0:
+        return 0, []
+    return n, bad
